@@ -4,7 +4,7 @@ p=$1; prop=$2; shift 2
 cd /repo
 if ! git diff --quiet; then echo "REPO DIRTY - commit first"; exit 2; fi
 git apply "$p" || { echo "PATCH DOES NOT APPLY"; exit 2; }
-/verif/bin/gzv check -property $prop -no-evidence "$@" 2>&1 | grep "^failed\|^vacuous\|^property=\|ERROR\|^VIOLATION\|^KNOWN" | cut -c1-220 | head -${MAXL:-14}
+/verif/bin/gzv check -property $prop -no-evidence -no-replay "$@" 2>&1 | grep "^failed\|^vacuous\|^property=\|ERROR\|^VIOLATION\|^KNOWN" | cut -c1-220 | head -${MAXL:-14}
 echo "exit=${PIPESTATUS[0]}"
 git apply -R "$p"
 git diff --quiet || echo "WARNING: repo still dirty"
